@@ -435,6 +435,8 @@ pub fn pick_entry<'a>(rng: &mut Rng, o: &WorldOpts) -> &'a Entry {
         .filter(|e| o.want_tags.iter().all(|t| e.has(t)) && !o.avoid_tags.iter().any(|t| e.has(t)))
         // stop= / suffix= lexemes (no rollback, hidden bytes): only where asked for
         .filter(|e| !e.has("stopl") || o.want_tags.contains(&"stopl"))
+        // allow_invalid_utf8 grammars (special tokens are not kept apart from text there): C10 only
+        .filter(|e| !e.has("bytesmode") || o.want_tags.contains(&"bytesmode"))
         .collect();
     assert!(!cands.is_empty());
     if !o.prefer_tags.is_empty() && rng.chance(0.7) {
@@ -972,6 +974,11 @@ fn gen_c10(rng: &mut Rng, seed: u64, index: u64, long: bool) -> Scenario {
     o.canonical = Some(false);
     o.vocab_kinds = vec!["synth", "bpe", "bpe"];
     o.slices_unsliced = true;
+    if rng.chance(0.06) {
+        // grammars in byte mode (allow_invalid_utf8): length bounds count bytes there
+        o.want_tags = vec!["bytesmode"];
+        o.vocab_kinds = vec!["synth"];
+    }
     let (world, productive) = gen_world(rng, &o);
     let mut sc = base("C10", "slices", seed, index, world, productive);
     sc.alts = vec![None, Some(random_slices(rng))];
@@ -1911,7 +1918,7 @@ fn gen_par(rng: &mut Rng, seed: u64, index: u64, long: bool, prop: &str) -> Scen
     }
     sc.setup = std::mem::take(&mut g.ops);
     let hs: Vec<SlotId> = (0..n).collect();
-    for _ in 0..rounds {
+    for round in 0..rounds {
         let words: Vec<usize> = hs
             .iter()
             .map(|_| match g.rng.below(10) {
@@ -1926,10 +1933,24 @@ fn gen_par(rng: &mut Rng, seed: u64, index: u64, long: bool, prop: &str) -> Scen
             })
             .collect();
         let is_async = g.rng.chance(0.5);
+        // steps the caller got wrong must not disturb the others: NULL constraint pointers in
+        // between, and (last round only: that handle is failed afterwards) invalid parameters
+        let mut quirks: Vec<u8> = vec![];
+        if g.rng.chance(0.4) {
+            quirks = hs.iter().map(|_| if g.rng.chance(0.3) { 1 } else { 0 }).collect();
+        }
+        if round + 1 == rounds && g.rng.chance(0.15) {
+            if quirks.is_empty() {
+                quirks = vec![0; hs.len()];
+            }
+            let i = g.rng.below(hs.len());
+            quirks[i] = if g.rng.chance(0.5) { 2 } else { 3 };
+        }
         g.ops.push(Op::ParMask {
             hs: hs.clone(),
             words,
             is_async,
+            quirks,
         });
         for &h in &hs {
             let p = g.honest();
@@ -2004,9 +2025,17 @@ fn gen_c17(rng: &mut Rng, seed: u64, index: u64, long: bool) -> Scenario {
                     let via_clone = g.rng.chance(0.3);
                     g.ops.push(Op::CTokUtil { which, seed, len, via_clone });
                 }
-                6 => {
+                6 | 10 => {
                     let k = g.rng.range(1, 4);
-                    let picks: Vec<Pick> = (0..k).map(|_| g.any_pick()).collect();
+                    let mut picks: Vec<Pick> = (0..k).map(|_| g.any_pick()).collect();
+                    if g.rng.chance(0.5) {
+                        // a draft that spells the pending forced bytes with other tokens than the
+                        // canonical ones (valid for validate_tokens, not in a narrowed mask)
+                        let n = g.rng.range(1, 3);
+                        let mut f: Vec<Pick> = (0..n).map(|_| Pick::ForcedSplit(g.rng.next_u64())).collect();
+                        f.extend(picks.into_iter().take(1));
+                        picks = f;
+                    }
                     g.ops.push(Op::Validate {
                         h: 0,
                         picks: picks.clone(),
